@@ -128,6 +128,20 @@ def filter_section(ctx):
         run_case(ctx, case, [font], None, lambda: getattr(ufo2ft, fn)(font))
 
 
+def rich_lib(names, cps, i):
+    """nested, mutable font-lib entries that the table builders read -- dicts of dicts, lists -- naming EVERY glyph (so also the ones
+    a skip list removes) and a glyph that does not exist: a builder that prunes or sorts what it reads edits the caller's lib"""
+    n = len(names)
+    lib = {"public.unicodeVariationSequences": {"FE00": {"%04X" % cps[k]: names[(k + 1) % n] for k in range(n)},
+                                                 "FE01": {"%04X" % cps[0]: "ghost.glyph", "%04X" % cps[-1]: names[-1]}},
+           "public.openTypeMeta": {"dlng": ["Latn"], "slng": ["Latn", "Grek"]}}
+    if i % 2:
+        lib["public.openTypeCategories"] = {names[k]: ["base", "ligature", "base"][k % 3] for k in range(n)}
+    if i % 3 == 0:
+        lib["public.postscriptNames"] = {names[0]: "ps.zero", names[-1]: "ps.last", "ghost.glyph": "ps.ghost"}
+    return lib
+
+
 def explore(ctx):
     import ufo2ft
     filter_section(ctx)
@@ -142,7 +156,7 @@ def explore(ctx):
         names = [g["name"] for g in desc["glyphs"]]
         desc["kerning"] = {(names[0], names[1]): Fr(-30)}
         desc["groups"] = {"public.kern1.A": [names[0]], "public.kern2.B": [names[1]]}
-        desc["lib"] = {}
+        desc["lib"] = rich_lib(names, [0x61 + k for k in range(len(names))], i)
         # every list-valued (mutable) font-info attribute is explicit and non-empty, and the style-map style cycles through
         # its four values: a compiler that extends or sorts such a list in place edits the caller's font info
         desc["info"] = dict(desc.get("info", {}), styleMapStyleName=["regular", "bold", "italic", "bold italic"][i % 4],
@@ -229,6 +243,14 @@ def explore(ctx):
         elif nm < 0.4:
             for sdesc in ds.sources:
                 sdesc.name = "master"
+        gn = [g["name"] for g in masters[0]["glyphs"]]
+        cp = {g["name"]: (g.get("unicodes") or [None])[0] for g in masters[0]["glyphs"]}
+        coded = [x for x in gn if cp[x] is not None]
+        if coded and i % 2 == 0:
+            for f in fonts:
+                f.lib["public.unicodeVariationSequences"] = {"FE00": {"%04X" % cp[x]: gn[(k + 1) % len(gn)] for k, x in enumerate(coded)},
+                                                             "FE01": {"%04X" % cp[coded[0]]: "ghost.glyph"}}
+                f.lib["public.openTypeMeta"] = {"dlng": ["Latn"], "slng": ["Latn", "Grek"]}
         opts = {}
         if rng.random() < 0.3 and fn.startswith("compileVariable"):
             opts["variableFeatures"] = rng.random() < 0.5
